@@ -25,7 +25,7 @@ BUDGET = {"quick": 40000, "thorough": 1000000}         # generated histories
 MAXLEN = {"quick": 30, "thorough": 45}
 SEARCH = {"quick": 40000, "thorough": 200000}           # extra monitor-only histories when proof/correspondence broke
 # exhaustive small scope: every op sequence over ALPHABET up to this length (each followed by the wind-down)
-ALPHABET = ["put 1", "spawn", "join", "cancel 0", "cancel 1", "gate 0 ok", "gate 0 exc", "gate 1 ok", "run", "run 1"]
+ALPHABET = ["put 1", "spawn", "join", "cancel 0", "cancel 1", "gate 0 ok", "gate 0 exc", "gate 1 ok", "take", "run", "run 1"]
 ENUM_LEN = {"quick": 4, "thorough": 5}
 
 
@@ -259,7 +259,8 @@ def run(prop, tier, seed, jobs, proof, out):
         "evaluations": agg["histories"],
         "distinct_nontrivial": len(agg["nontrivial"]),
         "rule": "op histories generated from random.Random(VERIF_SEED*1000003+i) in three profiles (fifo: handles run in loop "
-                "order; mixed/wild: `run k` picks the k-th ready handle, wild also names non-existent consumers), plus the "
+                "order; mixed/wild: `run k` picks the k-th ready handle, wild also names non-existent consumers; every profile also emits `take` = get_nowait() + item_processed() by "
+                "non-task code), plus the "
                 "corpus, plus every op sequence up to a small length over a reduced alphabet (exhaustive_small_scope); each executed on the real Queue one event-loop handle at a time (then wound down: all handles run, "
                 "all open gates resolved) and on the Lean model; distinct = distinct generated op sequences; non-trivial = "
                 "at least one item was handed to an `async with` block",
@@ -274,6 +275,7 @@ def run(prop, tier, seed, jobs, proof, out):
                      "join-returned-early", "join-not-released", "task_done-outside-consumer", "item-taken-by-nobody"],
         "op_histogram": {k: v for k, v in sorted(agg["stats"].items()) if k.startswith("op:") or k == "nonfifo-run"},
         "exit_kind_histogram": {k[5:]: v for k, v in sorted(agg["stats"].items()) if k.startswith("exit:")},
+        "hand_marked_items": agg["stats"].get("hand-marked", 0),
         "profile_histogram": dict(agg["profiles"]),
         "corpus_histories": len(bodies),
         "observed_fields": list(QW.FIELDS),
@@ -285,9 +287,10 @@ def run(prop, tier, seed, jobs, proof, out):
     ev = {"property_id": prop, "tier": tier, "seed": seed, "level": "proof", "coverage": cov,
           "assumptions": [
               "theorems are about the hand-written Lean model lean/Taskpool/Model/Queue.lean (every history of put / spawn / "
-              "join / cancel / gate ok|exc / run k, any handle order); the tie to /repo is this run's lock-step correspondence",
+              "join / cancel / gate ok|exc / take / run k, any handle order); the tie to /repo is this run's lock-step correspondence",
               "unbounded queue (maxsize 0), put_nowait producers, consumer body = one suspension point (a harness gate), "
-              "join tasks are never cancelled",
+              "join tasks are never cancelled; the plain protocol is used next to the context manager only in the form "
+              "`take` = get_nowait() immediately followed by one item_processed() from non-task code",
               "CPython 3.12.1 asyncio semantics as modelled (Task.cancel / must_cancel, Queue.get getter futures, "
               "_wakeup_next, Event.set/wait)"]}
     return ev
